@@ -594,6 +594,7 @@ Definition compare_req (S E : schema) (F G : features) (r : list sexp) : option 
                 match dec_sdoc dl with
                 | Some d =>
                     if negb (doc_wf d) then Some (v_bad "sdoc-not-well-formed")
+                    else if negb (fitsb (d_frags d) (sdoc_fuel d - 2) (d_sels d)) then Some (v_bad "sdoc-cyclic-or-deeper-than-its-fuel")
                     else
                     let seen (o : obs) := match o_rest o with
                                           | [l; t] => SL [l; tag "calls" (map SStr (o_calls o)); t]
